@@ -114,7 +114,8 @@ def run(chk):
     if r.returncode != 0:
         raise HarnessError("export-ast failed: " + r.stderr[-2000:])
     skipped = [json.loads(l) for l in open(skipped_path, encoding="utf-8") if l.strip()]
-    res = common.run_tlc("DocExamples", "DocExamples.cfg", extra_files=[(cases_path, "examples.ndjson")], timeout=600)
+    res = common.run_tlc("DocExamples", "DocExamples.cfg", extra_files=[(cases_path, "examples.ndjson")], timeout=600,
+                         defines={"MAXSTEPS": "100000"})
     chk.add_tlc(res, "DocExamples")
     if res.violation:
         raise HarnessError("DocExamples: " + res.violation)
@@ -156,4 +157,52 @@ def run(chk):
         "found": len(ex), "run_by_the_machine": len(res.cases), "machine_agrees_with_documentation": agree,
         "outside_the_exact_model": sorted(open_ + [s["id"] + ": " + s["why"] for s in skipped]),
         "implementation_compared_with_documentation": len(ex)}
+    return cases
+
+
+def corpus(chk, tier):
+    """Whole programs of the repository (examples/human-eval) through the machine; returns replay cases."""
+    import glob
+    import json
+    import random
+    from .common import HarnessError
+    files = sorted(glob.glob(os.path.join(common.REPO, "examples", "human-eval", "*.evy")))
+    if len(files) < 100:
+        raise HarnessError("examples/human-eval: only %d programs found" % len(files))
+    if tier == "quick":
+        files = random.Random(common.seed()).sample(files, 24)
+        cap = 2500
+    else:
+        cap = 30000
+    tmp = common.scratch("corpus-in")
+    inp = os.path.join(tmp, "in.ndjson")
+    src = {}
+    with open(inp, "w", encoding="utf-8") as f:
+        for p in files:
+            src[os.path.basename(p)] = open(p, encoding="utf-8").read()
+            f.write(json.dumps({"id": os.path.basename(p), "src": src[os.path.basename(p)], "inputs": []}) + "\n")
+    cases_path = os.path.join(tmp, "examples.ndjson")
+    skipped_path = os.path.join(tmp, "skipped.ndjson")
+    r = common.harness_cmd(["export-ast", "-in", inp, "-out", cases_path, "-skipped", skipped_path])
+    if r.returncode != 0:
+        raise HarnessError("export-ast failed: " + r.stderr[-2000:])
+    nskip = sum(1 for l in open(skipped_path, encoding="utf-8") if l.strip())
+    res = common.run_tlc("DocExamples", "DocExamples.cfg", extra_files=[(cases_path, "examples.ndjson")], timeout=3000,
+                         defines={"MAXSTEPS": str(cap)}, name="corpus")
+    chk.add_tlc(res, "DocExamples(human-eval)")
+    if res.violation:
+        raise HarnessError("DocExamples(human-eval): " + res.violation)
+    cases = []
+    for n, c in enumerate(res.cases):
+        if c["soundOnly"]:
+            continue
+        x = {k: v for k, v in c.items() if k not in ("srcs", "tag")}
+        x.update(id="corpus-%d" % n, stage="run", src=[src[c["class"]]], layout="corpus", **{"class": "corpus/" + c["class"]})
+        cases.append(x)
+    chk.extra["corpus_programs"] = {
+        "selected": len(files), "numbers_outside_the_exact_model": nskip,
+        "left_the_documented_domain (sqrt of a non-square, ...)": sum(1 for c in res.cases if c["soundOnly"]),
+        "finished_within_%d_steps_and_replayed" % cap: len(cases)}
+    if not cases:
+        raise HarnessError("no corpus program finished in the machine")
     return cases
